@@ -3,23 +3,30 @@ package main
 func init() {
 	plans["C20"] = Plan{
 		Jobs: []Job{
-			{Workload: "C20.seq", Mode: "plain", QuickB: 10, ThoroughB: 12},
-			{Workload: "C20.conc", Mode: "race", QuickB: 6, ThoroughB: 4},
+			{Workload: "C20.seq", Mode: "plain", QuickB: 10, ThoroughB: 10},
+			{Workload: "C20.conc", Mode: "race", QuickB: 6, ThoroughB: 5},
+			{Workload: "C20.conc", Mode: "plain", QuickB: 1, ThoroughB: 1, ThoroughOnly: true},
 		},
 		Level: "exploration",
-		Rule: "The real core.TxPool over a fork-aware harness chain with real StateDB states. C20.seq: PRNG histories of 40-120 operations (batches of local/remote/sync submissions of 12 admission classes, replacements at the price-bump boundary, blocks mined from Pending(), foreign blocks, reorgs of depth 1-3 built by the harness that lower nonces/balances and re-inject through the production reset, 2-4 head events fired back to back, SetGasPrice, gas-limit and balance changes; limits as small as 1/3/1/2 so that truncation runs); after EVERY operation, at quiescence: Pending()==Content().pending, disjoint/sorted/gap-free lists, pending starts at the account nonce of the harness' own ground truth and is affordable, queued strictly above, Nonce()==nonce+pending, Stats/Get/Status agree for pooled and no longer pooled hashes, limit rules, VerifCheckInternals (index walk under pool.mu); after a reorg every transaction mined only in the abandoned branch and still valid must be pooled, and pending again when its predecessors are. C20.conc (race build): adders, a head-changer (mine/foreign/reorg/batched/SetGasPrice), readers of every exported view and samplers checking Content() snapshots and the index walk while running, short eviction/report tickers, then the quiescent check. distinct_nontrivial = distinct (config, feature set) case signatures plus abstract pool states (bucketed pending/queued/account counts, locals).",
+		Rule: "The real core.TxPool over a fork-aware harness chain with real StateDB states (blockChain interface: CurrentBlock/GetBlock/StateAt/SubscribeChainHeadEvent; head events through an event.Feed as core.BlockChain posts them). " +
+			"C20.seq: PRNG histories of 40-120 operations: batches of AddRemotes/AddRemotesSync/AddLocals with 12 admission classes (next, gapped, far, underpriced, unaffordable, exact-balance, oversized, wrong network, stale nonce, over the block gas limit, below intrinsic gas, resubmission), replacements at the price-bump boundary (threshold-1, threshold, threshold+1, equal, +1) of pending and queued slots, blocks mined from Pending(), foreign blocks, reorgs of depth 1-3 built by the harness (re-including a random part of the abandoned transactions, foreign ones or nothing, with balance and gas-limit changes) that lower nonces/balances and make the pool re-inject through its production reset, 2-4 head events (extensions and fork flips, optionally with an asynchronous submission) fired back to back and awaited once, SetGasPrice; limits as small as AccountSlots 1 / GlobalSlots 3 / AccountQueue 1 / GlobalQueue 2 (4 in 5 histories) so that every truncation path runs, preset locals and NoLocals variants. " +
+			"After EVERY operation, at quiescence: Content() lists are sorted, per-account, disjoint (no hash pending and queued); Pending()==Content().pending; pending is gap-free, starts at the account nonce of the harness' own ground truth at the head, each pending tx is affordable and within the block gas limit; queued nonces lie strictly above pending and not below the account nonce; Nonce()==account nonce+pending count; Stats/Get/Status agree with the lists for pooled and for no longer pooled hashes (replaced, mined, dropped, rejected); limit rules (pool size without locals, GlobalSlots unless every non-local account is within AccountSlots, GlobalQueue unless only locals remain; after an explicit promotion request also AccountQueue and no executable transaction left queued); the index walk VerifCheckInternals under pool.mu (lists vs lookup vs priced heap vs virtual nonces vs the pool's own state); an admitted transaction that the admission model calls invalid; after a replacement verdict the losing hash must be gone from Pending/Content/Get/Status at once and the winner consistent in all of them; after a single-event reorg every transaction mined only in the abandoned branch and still valid at the new head must be pooled, and pending again when all its predecessors from the account nonce are (only when no limit can have interfered). " +
+			"C20.conc (race build): 2-5 adders, one head-changer (mine/foreign/reorg/batched/SetGasPrice), 1-3 readers of every exported view, an announcement subscriber, two samplers judging atomic Content() snapshots and the index walk WHILE everything runs, 3 ms eviction and 5 ms stats tickers (Lifetime 1-15 ms in a third of the runs), Gosched bursts; fixed amounts of work, then the quiescent judgement. Any race report is a violation. " +
+			"distinct_nontrivial = distinct (config, feature set) case signatures plus abstract pool states (bucketed pending/queued/account counts, locals).",
 		Explanation: "held = no view or index inconsistency, no lost re-injection and no race report on the executions of this run",
 		Assumptions: []string{
-			"the harness chain executes plain transfers only (nonce+1, balance-=value+21000*price); its StateDB contents are re-read and compared with the ground truth for every block built",
-			"quiescence = a sentinel head event has been consumed by the pool's event loop and an empty promotion request has been served (VerifSync); no forced reset is used",
-			"verdicts that differ from the documented admission/replacement rules without making a view inconsistent are reported as obs_verdict_deviation, not as violations (an admitted invalid transaction IS a violation)",
-			"TxPool.TransactionsNumber (unlocked, no callers in the tree) is not exercised",
+			"the harness chain executes plain transfers only (nonce+1, balance-=value+21000*price, explicit balance adjustments standing for everything else); the StateDB content of every block built is re-read through StateAt and compared with the ground truth",
+			"quiescence = a sentinel head event (nil block, ignored by the pool) has been consumed by the pool's event loop and an empty promotion request has been served (VerifSync); no forced reset(nil,nil) is used because it would re-derive the pool from the head and hide what the production resets left behind",
+			"verdicts that differ from the documented admission/replacement rules without making a view inconsistent are reported as obs_verdict_deviation, not as violations (an ADMITTED invalid transaction is a violation); a promotable transaction left queued by a reset that was merged with its submission is counted as obs_promotable_left_queued (liveness, not in the statement)",
+			"batched head events: only the view invariants are judged, because merged and separate resets legitimately differ in what they re-inject",
+			"TxPool.TransactionsNumber (reads the lists without the lock; no caller in the tree) is not exercised; the local-transaction journal is disabled",
 		},
 		Require: map[string]int64{
-			"ops": 50000, "tx_accepted": 20000, "admission_invalid_checked": 5000, "replaced_ok": 1000, "replace_at_boundary": 500,
-			"op_reorg": 3000, "reorg_nonce_lowered": 1000, "reorg_pending_again_checked": 500, "batched_head_events": 5000,
-			"feat_pending-full": 300, "feat_queue-full": 300, "feat_pool-full": 200, "accepted_then_dropped": 200,
-			"conc_runs": 20, "conc_snapshots": 2000, "conc_head_changes": 500, "conc_submitted": 10000,
+			"ops": 80000, "tx_accepted": 50000, "admission_invalid_checked": 30000, "replaced_ok": 3000, "replace_at_boundary": 3000,
+			"op_reorg": 8000, "reorg_nonce_lowered": 5000, "reorg_repooled_checked": 3000, "reorg_pending_again_checked": 3000, "batched_head_events": 15000,
+			"feat_pending-full": 400, "feat_queue-full": 300, "feat_pool-full": 400, "feat_full-underpriced": 50, "accepted_then_dropped": 1500,
+			"feat_reorg-lowers-balance": 1000, "feat_gaslimit-change": 1000, "feat_replaced-q": 500,
+			"conc_runs": 50, "conc_snapshots_nonempty": 3000, "conc_internal_walks": 3000, "conc_head_changes": 2000, "conc_submitted": 20000, "conc_reads": 20000, "feat_eviction": 5,
 		},
 	}
 }
